@@ -328,5 +328,6 @@ void yk_allow_ctx(uint32_t c, uint32_t mask);
 void yk_run_threads(uint32_t ctx);
 uint32_t yk_thread_done(uint32_t i);
 uint32_t yk_ctx_of_finish(uint32_t i);
+uint32_t yk_ctx_of_start(uint32_t i);
 #endif
 #endif
